@@ -37,4 +37,6 @@ def run(check):
     # wrapper descriptors rebuild themselves around safe_get(self.__wrapped__, instance, owner) (shared with C13.R2)
     from ..rules_wrappers import rule_descriptor_rebinding
     check.run_rule('C18.R6', lambda c: rule_descriptor_rebinding(c, 'C18.R6'))
+    from ..rules_modifiers import rule_reprepare_invalidates_cache
+    check.run_rule('C18.R7', lambda c: rule_reprepare_invalidates_cache(c, 'C18.R7'))
     check.run_rule('C18.R1b', lambda c: rule_recursion_guard_emptied(c, 'C18.R1'))
